@@ -35,6 +35,12 @@ def scenario_for(inp, obname, out):
                       [BIND_OK, {'replies': [{'id': 'req', 'op': ENTRY}, {'id': 'req', 'op': okres(5)}]}])
         return ('search-done-id-not-released', 'a search read to its end keeps its message ID reserved for ever (driver drops the routing entry on SearchResultDone but not the ID; finish() sends no scrub once the stream is Done)',
                 case, lambda v: (f"in-use IDs after the search finished: {step(v, 'snapshot')['inuse']}" if step(v, 'snapshot') and step(v, 'snapshot')['inuse'] else None))
+    if 'Abandon releases' in obname and inp.get('abandon') not in (inp.get('result_ids') or []) + (inp.get('search_ids') or []):
+        # the abandoned operation is no longer tracked (it completed, was finished early or timed out before)
+        case = script([BIND, {'do': 'delete', 'dn': 'dc=x'}, {'do': 'abandon', 'id': 2}, {'do': 'snapshot'}, {'do': 'delete', 'dn': 'dc=y'}],
+                      [BIND_OK, {'replies': [{'id': 'req', 'op': okres(11)}]}, {'replies': []}, {'replies': [{'id': 'req', 'op': okres(11, 5)}]}])
+        return ('abandon-of-finished-op-leaks-id', 'Abandon of an operation that is no longer outstanding leaves a message ID reserved (the Abandon request\'s own)',
+                case, lambda v: (f"in-use IDs after abandon of a finished operation: {step(v, 'snapshot')['inuse']}" if step(v, 'snapshot') and step(v, 'snapshot')['inuse'] else None))
     if 'Abandon releases' in obname:
         case = script([BIND, stream_start([]), {'do': 'next'}, {'do': 'stream_last_id'}, {'do': 'abandon', 'id': 2}, {'do': 'snapshot'}],
                       [BIND_OK, {'replies': [{'id': 'req', 'op': ENTRY}]}, {'replies': []}])
